@@ -407,7 +407,7 @@ impl<T: Iterator<Item = u8>> Tokenizer<T> {
                     }
                     let Some(ch) = self.skip() else {
                         return Some((
-                            TriviaPiece::BlockComment(Comment::new(bytes)),
+                            TriviaPiece::UnterminatedBlockComment(Comment::new(bytes)),
                             Some(LexErrKind::Unterminated(UnterminatedKind::BlockComment)),
                         ));
                     };
